@@ -101,6 +101,7 @@ def coq_schedule(cfg, adds, horizon):
 # ------------------------------------------------------------------------------------------------
 
 T = '_t._tcp.local.'
+XN, YN, HN = 'MyPrinter X.' + T, 'y.' + T, 'Host-H.local.'     # mixed-case owner names: records are matched case-insensitively
 
 
 def build_query(questions, known=(), tc=False, ident=0):
@@ -148,14 +149,14 @@ def run_scenario(evs):
     with Sim(loopback=True) as sim:
         async def main():
             a = await sim.start_host('A', '10.0.0.1')
-            x = ServiceInfo(T, 'x.' + T, port=80, addresses=[bytes([10, 0, 0, 1])], server='h.local.')
-            y = ServiceInfo(T, 'y.' + T, port=81, addresses=[bytes([10, 0, 0, 1])], server='h.local.')
+            x = ServiceInfo(T, XN, port=80, addresses=[bytes([10, 0, 0, 1])], server=HN)
+            y = ServiceInfo(T, YN, port=81, addresses=[bytes([10, 0, 0, 1])], server=HN)
             await a.azc.async_register_service(x)
             await a.azc.async_register_service(y)
             await sim.sleep(20000)          # let announcements age past every protection window
             t0 = sim.now
             base = len(sim.net.log)
-            ptr_x = cachesim.rec('KPointer', T, 12, 1, alias='x.' + T, ttl=4500)
+            ptr_x = cachesim.rec('KPointer', T, 12, 1, alias=XN, ttl=4500)
             for (dt, kind, src, r, tcd, ident) in evs:
                 await sim.sleep_until(t0 + dt)
                 sim.randoms['mcast_delay'] = [r]
@@ -163,11 +164,11 @@ def run_scenario(evs):
                 if kind in ('ptr', 'ptr-known', 'tc'):
                     data = build_query([(T, 12, False)], known=[ptr_x] if kind == 'ptr-known' else [], tc=(kind == 'tc'), ident=ident)
                 elif kind == 'srv':
-                    data = build_query([('x.' + T, 33, False)], ident=ident)
+                    data = build_query([(XN, 33, False)], ident=ident)
                 elif kind == 'a':
-                    data = build_query([('h.local.', 1, False)], ident=ident)
+                    data = build_query([(HN, 1, False)], ident=ident)
                 else:
-                    data = build_query([(T, 12, False), ('x.' + T, 16, False)], ident=ident)
+                    data = build_query([(T, 12, False), (XN, 16, False)], ident=ident)
                 log.append(('query', sim.now - t0, kind, src, r, tcd, data))
                 sim.net.inject(a, data, (src, 5353))
             await sim.sleep(5000)
@@ -196,7 +197,7 @@ def oracle_scenario(log, esc):
             if len(set(idents)) != len(idents):
                 return f"multicast at +{ts} lists a record twice"
             mc.append((ts, set(idents), recs))
-    px, py = ('DNSPointer', T, 12, 'x.' + T), ('DNSPointer', T, 12, 'y.' + T)
+    px, py = ('DNSPointer', T, 12, XN.lower()), ('DNSPointer', T, 12, YN)
 
     def sightings(ident, before):
         return [ts for ts, ids, _ in mc if ident in ids and ts <= before]
@@ -222,8 +223,8 @@ def oracle_scenario(log, esc):
         if dropped or kind == 'tc':
             continue
         # a TC train in progress from this source is answered together with this query - still within this query's windows
-        want = {'ptr': [px, py], 'ptr-known': [py], 'multi': [px, py], 'srv': [('DNSService', 'x.' + T, 33, 'h.local.')],
-                'a': [('DNSAddress', 'h.local.', 1, '')]}[kind]
+        want = {'ptr': [px, py], 'ptr-known': [py], 'multi': [px, py], 'srv': [('DNSService', XN.lower(), 33, HN.lower())],
+                'a': [('DNSAddress', HN.lower(), 1, '')]}[kind]
         # a truncated train from the same source still on hold: this query ends the hold and is answered together with the
         # deferred packets as ONE assembled query (several questions, so not an "at once" case)
         in_train = any(q[2] == 'tc' and q[3] == src and 0 <= t - q[1] <= tc_hold(q)
